@@ -45,7 +45,7 @@ def run_check(prop, tier="quick"):
 
 ALL = ["C%02d" % i for i in range(1, 21)]
 EXTRA = {"C04-2": ["C10"], "C04-3": ["C13"], "C04-1": ["C06"], "C05-1": ["C09", "C03"], "C05-2": ["C13"], "C05-3": ["C10"], "C02-1": ["C03", "C05"], "C02-3": ["C05"],
-         "C16-2": ["C04"], "C01-1": ["C15", "C17"], "C15-1": ["C01"], "C17-2": ["C10"], "C17-1": ["C11"]}
+         "C16-2": ["C04"], "C15-11": ["C16"], "C09-11": ["C16"], "C01-1": ["C15", "C17"], "C15-1": ["C01"], "C17-2": ["C10"], "C17-1": ["C11"]}
 
 def main():
     setup()
